@@ -85,9 +85,13 @@ def gen_blocks(r, depth=0, plain=False, n=None, in_item=False):
         elif k < 0.80:
             b = ("quote", gen_blocks(r, depth + 1, plain))
         else:
-            if prev == "list":
-                continue
             ordered = r.random() < 0.4
+            mark = r.choice([".", ".", ")"]) if ordered else r.choice(["-", "-", "*", "+"])
+            if prev == "list":
+                # two lists are adjacent only when the marker character changes (that is what separates them)
+                pm = out[-1][5]
+                if r.random() < 0.5 or pm == mark:
+                    continue
             tight = r.random() < 0.6
             items = []
             for _ in range(r.randint(1, 3)):
@@ -95,7 +99,8 @@ def gen_blocks(r, depth=0, plain=False, n=None, in_item=False):
                     it = [("para", gen_inlines(r, 0, plain))]
                     if r.random() < 0.25 and depth < 2:
                         sub = gen_blocks(r, depth + 1, plain, 1, True)
-                        it += [x for x in [("list", r.random() < 0.5, 1, True, [[("para", gen_inlines(r, 0, plain))] for _ in range(r.randint(1, 2))])]]
+                        sub_ordered = r.random() < 0.5
+                        it += [("list", sub_ordered, 1, True, [[("para", gen_inlines(r, 0, plain))] for _ in range(r.randint(1, 2))], r.choice([".", ")"]) if sub_ordered else r.choice(["-", "*", "+"]))]
                 else:
                     it = gen_blocks(r, depth + 1, plain, r.randint(1, 2), True)
                     if it[0][0] in ("indented", "hr"):
@@ -103,7 +108,11 @@ def gen_blocks(r, depth=0, plain=False, n=None, in_item=False):
                     # a nested list is the last block of its item (known finding C04/blank-after-nested-list)
                     it = [x for x in it if x[0] != "list"] + [x for x in it if x[0] == "list"][:1]
                 items.append(it)
-            b = ("list", ordered, r.choice([1, 1, 2, 7, 10, 8, 9, 98, 99]) if ordered else 1, tight, items)
+            if mark == "*" and any(it[0][0] == "hr" for it in items):
+                mark = "+"   # '* ***' is a thematic break, not an item holding one
+                if prev == "list" and out[-1][5] == mark:
+                    continue
+            b = ("list", ordered, r.choice([1, 1, 2, 7, 10, 8, 9, 98, 99]) if ordered else 1, tight, items, mark)
         if b[0] == "indented" and prev in ("para",):
             continue
         out.append(b)
@@ -183,10 +192,10 @@ def print_blocks(bs, tight=False):
             inner = print_blocks(b[1])
             parts.append("\n".join((">" + (" " + l if l else "")) for l in inner.split("\n")))
         elif t == "list":
-            _, ordered, start, ltight, items = b
+            _, ordered, start, ltight, items, mark = b
             lines = []
             for i, it in enumerate(items):
-                marker = ("%d." % (start + i)) if ordered else "-"
+                marker = ("%d%s" % (start + i, mark)) if ordered else mark
                 pad = marker + " "
                 body = print_blocks(it, ltight)
                 lines.append(indent(body, pad, " " * len(pad)))
@@ -280,7 +289,7 @@ def exp_blocks(bs, escape_url, tight=False):
         elif t == "quote":
             out.append({"type": "block_quote", "children": exp_blocks(b[1], escape_url)})
         elif t == "list":
-            _, ordered, start, ltight, items = b
+            _, ordered, start, ltight, items, _mark = b
             # without any blank line (one item holding one block) the list is tight whatever was intended
             ltight = ltight or (len(items) == 1 and len(items[0]) == 1)
             attrs = {"ordered": ordered}
